@@ -205,7 +205,7 @@ def validate_and_report(ctx, traces, name):
                           "N=%d W=%d mode=%s: %s" % (tr["N"], tr["W"], tr["mode"], tr["failed"]),
                           dict(type="trace", trace=tr))
     traces = [tr for tr in traces if not tr.get("failed")]
-    verdicts = _tracecheck.validate(ctx, name, S.TRACE_MOD, S.TRACE_CFG, [for_tlc(t) for t in traces], chunk=4000)
+    verdicts = _tracecheck.validate(ctx, name, S.TRACE_MOD, S.TRACE_CFG, [for_tlc(t) for t in traces], chunk=800)
     for tr in traces:
         v = verdicts[tr["tid"]]
         if v is None:
